@@ -2,6 +2,7 @@ package sql
 
 import (
 	"fmt"
+	"go/constant"
 	"regexp"
 	"strings"
 
@@ -202,10 +203,14 @@ func typeConstraint(field sql.Column) string {
 func enumTuple(e *an.Enum) string {
 	chunks := make([]string, len(e.Members))
 	for i, val := range e.Members {
-		chunks[i] = val.Const.Val().ExactString()
+		if v := val.Const.Val(); v.Kind() == constant.String {
+			// SQL uses single quotes, doubled inside the literal
+			chunks[i] = "'" + strings.ReplaceAll(constant.StringVal(v), "'", "''") + "'"
+		} else {
+			chunks[i] = v.ExactString()
+		}
 	}
-	out := fmt.Sprintf("(%s)", strings.Join(chunks, ", "))
-	return strings.ReplaceAll(out, `"`, `'`) // SQL uses single quote
+	return fmt.Sprintf("(%s)", strings.Join(chunks, ", "))
 }
 
 func compositeDecl(cp sql.Composite) string {
